@@ -549,7 +549,7 @@ func TestC17(t *testing.T) {
 			run(c, t.Fatalf)
 		}
 	}
-	rapid.Check(t, func(rt *rapid.T) { run(genGCase(rt), rt.Fatalf) })
+	checkBudget(t, func(rt *rapid.T) { run(genGCase(rt), rt.Fatalf) })
 }
 
 var _ = bytes.Equal
